@@ -197,3 +197,33 @@ func init() {
 	checks["C04"].Quick = append(checks["C04"].Quick, hs[5])
 	checks["C04"].Thorough = append(checks["C04"].Thorough, hs[5])
 }
+
+func init() {
+	q := []H{
+		{Pkg: "components", Fn: "VxH19comb", Params: p("ports", 2, "file", 1, "bufsize", 1), MustReach: []string{"ran"}, MustAssert: []string{"C19.comb.cartesian-product-aligned-each-once"}},
+		{Pkg: "components", Fn: "VxH19comb", Params: p("ports", 2, "file", 0, "bufsize", 1), MustReach: []string{"ran"}, MustAssert: []string{"C19.comb.cartesian-product-aligned-each-once"}},
+		{Pkg: "components", Fn: "VxH19comb", Params: p("ports", 3, "file", 1, "bufsize", 4), MustReach: []string{"ran"}, MustAssert: []string{"C19.comb.cartesian-product-aligned-each-once"}},
+		{Pkg: "components", Fn: "VxH19comb", Params: p("ports", 3, "file", 0, "bufsize", 4), MustReach: []string{"ran"}, MustAssert: []string{"C19.comb.cartesian-product-aligned-each-once"}},
+		{Pkg: "components", Fn: "VxH19sel", Params: p("n", 2), MustReach: []string{"ran"}, MustAssert: []string{"C19.sel.exactly-the-passing-tuples-in-order"}},
+		{Pkg: "components", Fn: "VxH19split", Params: p("n", 0), MustReach: []string{"ran"}, MustAssert: []string{"C19.split.parts-concatenate-to-input", "C19.split.no-temp-dir-left"}},
+		{Pkg: "components", Fn: "VxH19split", Params: p("n", 3), MustReach: []string{"ran"}, MustAssert: []string{"C19.split.parts-concatenate-to-input", "C19.split.no-part-longer-than-limit"}},
+		{Pkg: "components", Fn: "VxH19split", Params: p("n", 4), MustReach: []string{"ran"}, MustAssert: []string{"C19.split.parts-concatenate-to-input", "C19.split.no-part-longer-than-limit"}},
+		{Pkg: "components", Fn: "VxH19concat", Params: p("n", 0), MustReach: []string{"ran"}, MustAssert: []string{"C19.concat.every-input-once-newline-terminated"}},
+		{Pkg: "components", Fn: "VxH19concat", Params: p("n", 3), MustReach: []string{"ran"}, MustAssert: []string{"C19.concat.every-input-once-newline-terminated", "C19.concat.arrival-order"}},
+		{Pkg: "components", Fn: "VxH19src", MustReach: []string{"ran"}, MustAssert: []string{"C19.src.globber-matching-files-in-order", "C19.src.reader-lines-in-order"}},
+	}
+	th := append([]H{}, q...)
+	th = append(th, H{Pkg: "components", Fn: "VxH19sel", Params: p("n", 3), MustReach: []string{"ran"}, MustAssert: []string{"C19.sel.exactly-the-passing-tuples-in-order"}},
+		H{Pkg: "components", Fn: "VxH19split", Params: p("n", 5), MustReach: []string{"ran"}, MustAssert: []string{"C19.split.parts-concatenate-to-input"}})
+	regCheck(&Check{ID: "C19", Quick: q, Thorough: th,
+		Bounds: map[string]string{
+			"combinators": "FileCombinator and ParamCombinator, 2 or 3 ports, every combination of stream lengths 0..2 per port, symbolic map iteration order in Run and combine; ports fed by independent sources (buffer 1 for 2 ports; buffer 4 >= stream length for 3 ports)",
+			"selector":    "IPSelectorSync with 2 ports and 2 (thorough 3) aligned tuples, every pattern of predicate outcomes",
+			"splitter":    "files of 0, 3, 4 (thorough 5) lines with symbolic content of <= 2 bytes, LinesPerSplit symbolic in 1..3 (exact multiples and empty file included)",
+			"concatenator": "0 and 3 input files with symbolic content of <= 2 bytes",
+			"sources":     "FileGlobber with two patterns over a generated directory, FileToParamsReader with symbolic lines; FileSource and ParamSource feed all the other harnesses",
+		},
+		Outside:     []string{"4 ports", "streams longer than 2 on combinators", "lines longer than the scanner buffer (the scanner model has no buffer limit)", "glob syntax beyond what filepath.Match accepts", "CommandToParams (arbitrary shell output is outside the command model)", "Concatenator group-by-tag files"},
+		Assumptions: append(append([]string{}, envAssumptions...), commonAssumptions[0], commonAssumptions[3], "bufio.Scanner is modelled as a reader of whole lines of the model file"),
+		Stubs:       []string{"os.Open/Create, (*os.File).Write/WriteString, bufio.Scanner, ioutil.ReadFile, filepath.Glob, sync.WaitGroup"}})
+}
